@@ -44,6 +44,11 @@ BallotS.declare(
 )
 BallotS = BallotS.create()
 SeqBallot = z3.SeqSort(BallotS)
+# recorded ElectionState objects: references with field accessors
+st_elected = z3.Function("st_elected", StateRefS, SeqCSet)
+st_eliminated = z3.Function("st_eliminated", StateRefS, SeqCSet)
+st_remaining = z3.Function("st_remaining", StateRefS, SeqCSet)
+st_round = z3.Function("st_round", StateRefS, z3.IntSort())
 SeqStr = z3.SeqSort(PyStr)
 
 ProfileS = z3.Datatype("Profile")
